@@ -1,10 +1,11 @@
 (* Properties/C02.v — every image the tool writes is a structurally valid image of the same size.
-   Only statements; every proof is [exact <lemma of Proofs/AsmProofs.v or Proofs/ValidProofs.v>].
+   Only statements; every proof is [exact <lemma of Proofs/AsmProofs.v, Proofs/ValidProofs.v,
+   Proofs/ValidFlatProofs.v>] (C02_unedited_valid: a rewrite with C01's grammar_save_identity).
 
    [valid_image] (Model/Valid.v) is the independent reader.  [file_start]/[file_starts]/[end_of] are
    the offsets the file loop of Assemble (Ffs.place_files) gives to the files of a volume. *)
-From Fiano Require Import Base.Bytes Gen.Consts Model.Ffs Model.Edit Model.Valid
-  Proofs.EditProofs Proofs.AsmProofs Proofs.ValidProofs.
+From Fiano Require Import Base.Bytes Gen.Consts Model.Ffs Model.FfsGrammar Model.Edit Model.Valid Model.ValidInv
+  Proofs.FfsGrammarProofs Proofs.EditProofs Proofs.AsmProofs Proofs.ValidProofs Proofs.ValidFlatProofs.
 Open Scope Z_scope.
 
 (* ---- same total size; an error writes nothing ---- *)
@@ -62,9 +63,13 @@ Proof. exact asm_vol_v_len. Qed.
 Print Assumptions C02_volume_length.
 
 (* a rebuilt resizable (nested) volume with a power-of-two block size has exactly Length bytes;
-   Length is kept or, when the files need more, grows to the next block boundary, and the first
-   block-map entry is updated with it (Go's Align is a bit mask: equal to rounding up exactly for
-   powers of two, lemma align_go_pow2) *)
+   Length is kept or, when the files need more, grows: only the first block-map entry is resized,
+   the bytes of the further entries ([rest_bytes rest], Assemble's uint64 sum of count * size) stay
+   part of the volume, what the files need beyond them is rounded up to the first entry's block
+   size, and the first entry's count is updated so that the block map adds up to Length (last
+   conjunct; before fixes/C02-resize-multi-entry-blockmap.diff Length and the first count ignored
+   the further entries).  Go's Align is a bit mask: equal to rounding up exactly for powers of
+   two, lemma align_go_pow2 *)
 Theorem C02_volume_length_resizable : forall pol ffs3 h buf files h' b c k rest,
   asm_vol pol ffs3 h buf files = Ok (h', b) ->
   vol_verbatim h files = false -> v_resizable h = true ->
@@ -72,8 +77,10 @@ Theorem C02_volume_length_resizable : forall pol ffs3 h buf files h' b c k rest,
   end_of (v_dataoff h) files + 2 ^ k <= 2 ^ 64 ->
   zlen b = v_length h' /\
   ((v_length h' = v_length h /\ v_blocks h' = v_blocks h) \/
-   (v_length h < v_length h' /\ v_length h' = align (end_of (v_dataoff h) files) (2 ^ k) /\
-    v_blocks h' = ((v_length h' / 2 ^ k) mod U32, 2 ^ k) :: rest)).
+   (v_length h < v_length h' /\ end_of (v_dataoff h) files <= v_length h' /\
+    v_length h' = rest_bytes rest + align (Z.max 0 (end_of (v_dataoff h) files - rest_bytes rest)) (2 ^ k) /\
+    v_blocks h' = (((v_length h' - rest_bytes rest) / 2 ^ k) mod U32, 2 ^ k) :: rest /\
+    (v_length h' - rest_bytes rest) / 2 ^ k * 2 ^ k + rest_bytes rest = v_length h')).
 Proof. exact asm_vol_v_len_resizable. Qed.
 Print Assumptions C02_volume_length_resizable.
 
@@ -116,27 +123,21 @@ Print Assumptions C02_volume_header_checksum.
 
 (* ---- the independent reader accepts a rebuilt volume ---- *)
 
-(* C02_valid_after_edits (the goal; NOT proved):
+(* C02_valid_after_edits (the goal in full generality; NOT proved):
 
      forall img ops out, valid_image dec d img = true ->
        edit_and_save dec enc u2s s2u nvar d ops img = Ok out ->
        valid_image dec d out = true /\ zlen out = zlen img.
 
-   Proved below is its volume-assembly core, C02_valid_after_edits_partial: when Assemble rebuilds
-   a non-resizable volume from files that are individually valid for the reader ([fok]: per-file
-   checks pass, header not erased; attribute byte = the header record's), the result has exactly
-   Length bytes, keeps Length, its header sums to zero, and the reader's file walk ([v_files]: 8-byte
-   placement, size fields, header/body checksums, data alignment, no overlap, erased free space)
-   accepts it from the data offset on, whatever the edits did to the file list.
-   Exact gap to the goal: (1) [fok] for the files themselves - for untouched files it follows from
-   valid_image of the input through the parser (parse_fv keeps the bytes: property C04), for files
-   rebuilt from sections from C02_created_file_valid plus the section walk ([v_sections] over
-   join4/gen_sec_header), neither link is proved; (2) the header rules of valid_fv other than
-   length and checksum (signature, block map sum, extended header) - the header bytes below offset
-   60 other than Length/GUID/checksum are the input's; (3) for resizable (nested) volumes only the length rule is proved
-   (C02_volume_length_resizable, power-of-two block sizes), not the file walk; (4) the composition
-   section -> file -> nested volume -> region ([v_region] over copy_elems) and the fuel of valid_fv.
-   These are covered on the implementation by the oracle p_c02 only. *)
+   Proved: C02_valid_after_edits_flat (below) - the statement end to end for "flat" trees, with the
+   hypothesis given as the checkable boolean Model/ValidInv.flat_check; C02_unedited_valid - no edit,
+   inputs of C01's grammar; and the volume-assembly core C02_valid_after_edits_partial that both the
+   flat theorem and any extension rest on: when Assemble rebuilds a non-resizable volume from files
+   that are individually valid for the reader ([fok]: per-file checks pass, header not erased;
+   attribute byte = the header record's), the result has exactly Length bytes, keeps Length, its
+   header sums to zero, and the reader's file walk ([v_files]: 8-byte placement, size fields,
+   header/body checksums, data alignment, no overlap, erased free space) accepts it from the data
+   offset on, whatever the edits did to the file list. *)
 Theorem C02_valid_after_edits_partial : forall vfv venc dec pol ffs3 h buf files h' b,
   asm_vol pol ffs3 h buf files = Ok (h', b) ->
   vol_verbatim h files = false -> v_resizable h = false ->
@@ -148,6 +149,83 @@ Theorem C02_valid_after_edits_partial : forall vfv venc dec pol ffs3 h buf files
   forall fuel, (2 * length files < fuel)%nat -> v_files vfv venc dec fuel pol b (v_dataoff h) = true.
 Proof. exact asm_vol_valid_core. Qed.
 Print Assumptions C02_valid_after_edits_partial.
+
+(* ---- end to end ---- *)
+
+(* utk <image> <ops...> save on a flat tree: whenever bytes are written they are a valid image of
+   the input's size.  [flat_check dec u2s nvar dd d ops img] (Model/ValidInv.v) is a boolean: the
+   command line and the image parse, and the parsed tree has the invariant
+     - every section node is a leaf: a UI/version/depex section (regenerated from its fields) or a
+       section copied verbatim whose bytes the reader accepts ([v_sec0]: size fields; neither a
+       volume-image section nor a compressed GUID-defined section the reader would open);
+     - every file node is a leaf the reader accepts ([v_file], header not erased, attribute byte =
+       header record) or is rebuilt from such sections (or its NVAR store); ExtendedSize < 2^64;
+     - every top-level volume is non-resizable, below 4 GiB, has the region's erase polarity and a
+       header the reader accepts and the header record agrees with ([vhdr_inb]); a volume of a
+       file system fiano does not parse is valid as it is;
+     - paddings between the volumes are multiples of 8 without a "_FVH" hit at the scanned
+       positions ([scan_ok]);
+     - inserted files have the file invariant, replacement PE images are below 4 GiB ([cop_flat]).
+   [d] is the reader's depth below the top-level volumes, [dd] the parser's depth.
+
+   What this leaves open of the goal above, exactly:
+   (1) flat_check is not derived from [valid_image dec (S d) img = true]; instead the model runner
+       evaluates it on every generated case in scope (op 'flat' of the C02 executor), so the
+       oracle p_c02 runs on inputs that provably satisfy the hypothesis.  The link would need
+       "the parser keeps the bytes of what it does not rebuild" (property C04's statement) tied
+       to the reader's rules file by file;
+   (2) trees with visible nested volumes (volume-image sections; resizable volumes: only the
+       length rule C02_volume_length_resizable is proved) and with compressed sections that fiano
+       opens and re-compresses (the reader then checks the decoded payload; needs dec (enc x) = x
+       as a hypothesis on the codec oracle) are outside flat_check: these are covered on the
+       implementation by the oracle p_c02 only;
+   (3) volumes of 4 GiB and more. *)
+Theorem C02_valid_after_edits_flat : forall dec enc u2s s2u nvar dd d ops img out,
+  flat_check dec u2s nvar dd d ops img = true ->
+  edit_and_save dec enc u2s s2u nvar dd ops img = Ok out ->
+  valid_image dec (S d) out = true /\ zlen out = zlen img.
+Proof. exact flat_edit_valid. Qed.
+Print Assumptions C02_valid_after_edits_flat.
+
+(* its assembly half on its own: any tree with the invariant whose elements tile [len] bytes is
+   saved as a valid region of [len] bytes *)
+Theorem C02_flat_tree_saves_valid : forall dec enc s2u d pol elems len el b st,
+  forallb (vtb_elem dec d pol) elems = true -> scan_ok elems = true -> total_len elems = len ->
+  asm_bios enc s2u elems len (pol, false) = Ok (el, b, st) ->
+  valid_image dec (S d) b = true /\ zlen b = len.
+Proof. exact flat_save_valid. Qed.
+Print Assumptions C02_flat_tree_saves_valid.
+
+(* and its edit half: every operation keeps the invariant, the kinds and the bytes of the region's
+   top-level elements *)
+Theorem C02_ops_keep_invariant : forall dec d pol dd cs elems elems',
+  forallb (cop_flat dec d pol) cs = true ->
+  run_ops dd pol cs elems = Ok elems' -> forallb (vtb_elem dec d pol) elems = true ->
+  scan_ok elems' = scan_ok elems /\ map node_buf elems' = map node_buf elems /\
+  forallb (vtb_elem dec d pol) elems' = true.
+Proof. exact run_ops_flat. Qed.
+Print Assumptions C02_ops_keep_invariant.
+
+(* no operation at all: for the inputs of C01's proved grammar (volumes with extended headers,
+   any block map, large files, ...) save returns the input, hence a valid image whenever the
+   input is one; no flatness restriction *)
+Theorem C02_unedited_valid : forall dec enc u2s s2u nvar l trail,
+  wf_region u2s s2u l trail ->
+  exists d0, forall dd, (d0 <= dd)%nat ->
+    edit_and_save dec enc u2s s2u nvar dd [] (emit_region l trail) = Ok (emit_region l trail) /\
+    forall dr out, edit_and_save dec enc u2s s2u nvar dd [] (emit_region l trail) = Ok out ->
+      valid_image dec dr (emit_region l trail) = true ->
+      valid_image dec dr out = true /\ zlen out = zlen (emit_region l trail).
+Proof.
+  intros dec enc u2s s2u nvar l trail W.
+  destruct (grammar_save_identity dec enc u2s s2u nvar l trail W) as (d0 & H). exists d0. intros dd Hd.
+  assert (E : edit_and_save dec enc u2s s2u nvar dd [] (emit_region l trail) = Ok (emit_region l trail)).
+  { rewrite <- (H dd Hd). unfold edit_and_save, edit_and_save_gen, save_region, parse_region.
+    cbn [parse_cli bind run_ops].
+    destruct (parse_bios dec u2s nvar dd _ 240 (emit_region l trail) 0) as [[elems pol]| | |]; reflexivity. }
+  split; [exact E|]. intros dr out Ho Hv. rewrite E in Ho. inversion Ho; subst out. split; [exact Hv | reflexivity].
+Qed.
+Print Assumptions C02_unedited_valid.
 
 (* ---- examples: the reader on a real image, before and after edits ---- *)
 
@@ -180,6 +258,17 @@ Proof. vm_compute. reflexivity. Qed.
 Example ex_insert_changes : match save_of [OInsert IAfter (TLit (guid_string tiny_guid)) tiny_file] with
                             | Ok out => negb (bytes_eqb out tiny_image) | _ => false end = true.
 Proof. vm_compute. reflexivity. Qed.
+(* the hypothesis of C02_valid_after_edits_flat holds on this image with these operations (reader
+   depth 8 = one more than the depth 7 below the top-level volume), so the validity of the three
+   outputs above also follows from the theorem; and it fails on the damaged image *)
+Example ex_flat_check :
+  flat_check no_codec id_bytes no_nvar 8 7
+    [ORemove true (TLit (guid_string tiny_guid)); OInsert IAfter (TLit (guid_string tiny_guid)) tiny_file]
+    tiny_image = true.
+Proof. vm_compute. reflexivity. Qed.
+Example ex_flat_check_rejects :
+  flat_check no_codec id_bytes no_nvar 8 7 [] (splice 90 [66] tiny_image) = false.
+Proof. vm_compute. reflexivity. Qed.
 (* five more files do not fit 192 bytes: an error, no bytes *)
 Example ex_nospace :
   is_ok (save_of (repeat (OInsert IEnd (TLit (guid_string tiny_guid)) tiny_file) 5)) = false.
@@ -189,3 +278,68 @@ Proof. vm_compute. reflexivity. Qed.
 Example ex_file_start :
   file_start 96 (NFile (mkFile tiny_guid 0 170 7 8 28 248 28 24 None) (sub 72 28 tiny_image) []) = 120.
 Proof. vm_compute. reflexivity. Qed.
+
+(* ---------------------------------------------------------------------------------------- *)
+(* Kernel ties: the arithmetic kernels of pkg/uefi this property rests on, as TRANSCRIBED FROM
+   THE GO SOURCE on every run (translator/Kernels.sh -> Gen/GoKernels.v), equal the functions of
+   the model (Proofs/KernelTie.v).  A change of one of these Go functions breaks the lemma. *)
+From Fiano Require Import Base.Bytes Base.GoInt Gen.GoKernels Proofs.KernelTie.
+Local Open Scope Z_scope.
+
+Theorem C02_kernel_Align : forall v b, go_Align v b = Ffs.align_go v b.
+Proof. exact go_Align_tie. Qed.
+Print Assumptions C02_kernel_Align.
+
+Theorem C02_kernel_Align_pow2 : forall v k, 0 <= v -> 0 <= k < 64 -> v + 2 ^ k - 1 < 2 ^ 64 ->
+  go_Align v (2 ^ k) = Ffs.align v (2 ^ k).
+Proof. exact go_Align_pow2. Qed.
+Print Assumptions C02_kernel_Align_pow2.
+
+Theorem C02_kernel_Align4 : forall v, 0 <= v -> v + 3 < 2 ^ 64 -> go_Align4 v = Ffs.align4 v.
+Proof. exact go_Align4_tie. Qed.
+Print Assumptions C02_kernel_Align4.
+
+Theorem C02_kernel_Align8 : forall v, 0 <= v -> v + 7 < 2 ^ 64 -> go_Align8 v = Ffs.align8 v.
+Proof. exact go_Align8_tie. Qed.
+Print Assumptions C02_kernel_Align8.
+
+Theorem C02_kernel_Read3Size : forall a b c, 0 <= a < 256 -> 0 <= b < 256 -> 0 <= c < 256 ->
+  go_Read3Size [a; b; c] = le_dec [a; b; c].
+Proof. exact go_Read3Size_tie. Qed.
+Print Assumptions C02_kernel_Read3Size.
+
+Theorem C02_kernel_Write3Size : forall size, 0 <= size < 2 ^ 64 -> go_Write3Size size = le_enc 3 (Ffs.write3 size).
+Proof. exact go_Write3Size_tie. Qed.
+Print Assumptions C02_kernel_Write3Size.
+
+Theorem C02_kernel_Checksum8 : forall b, go_Checksum8 b = Ffs.sum8 b.
+Proof. exact go_Checksum8_tie. Qed.
+Print Assumptions C02_kernel_Checksum8.
+
+Theorem C02_kernel_Checksum16 : forall b, Z.even (zlen b) = true -> go_Checksum16 b = Ok (Ffs.sum16 b).
+Proof. exact go_Checksum16_tie. Qed.
+Print Assumptions C02_kernel_Checksum16.
+
+Theorem C02_kernel_Checksum16_odd : forall b, Z.even (zlen b) = false -> go_Checksum16 b = Err 1.
+Proof. exact go_Checksum16_odd. Qed.
+Print Assumptions C02_kernel_Checksum16_odd.
+
+Theorem C02_kernel_IsErased : forall buf pol, go_IsErased buf pol = forallb (fun x => x =? pol) buf.
+Proof. exact go_IsErased_tie. Qed.
+Print Assumptions C02_kernel_IsErased.
+
+Theorem C02_kernel_IsLarge : forall a, go_fileAttr_IsLarge a = Ffs.attr_large a.
+Proof. exact go_fileAttr_IsLarge_tie. Qed.
+Print Assumptions C02_kernel_IsLarge.
+
+Theorem C02_kernel_HasChecksum : forall a, go_fileAttr_HasChecksum a = Ffs.attr_checksum a.
+Proof. exact go_fileAttr_HasChecksum_tie. Qed.
+Print Assumptions C02_kernel_HasChecksum.
+
+Theorem C02_kernel_GetAlignment : forall a, 0 <= a < 256 -> go_fileAttr_GetAlignment a = Ok (Ffs.attr_align a).
+Proof. exact go_fileAttr_GetAlignment_tie. Qed.
+Print Assumptions C02_kernel_GetAlignment.
+
+Theorem C02_kernel_GetErasePolarity : forall attrs, go_FirmwareVolume_GetErasePolarity attrs = Ffs.fv_polarity attrs.
+Proof. exact go_FirmwareVolume_GetErasePolarity_tie. Qed.
+Print Assumptions C02_kernel_GetErasePolarity.
